@@ -4,6 +4,7 @@ package taddfields
 
 import (
 	"fmt"
+	"sort"
 
 	"github.com/relex/gotils/logger"
 	"github.com/relex/slog-agent/base"
@@ -30,8 +31,16 @@ type addFieldPair struct {
 
 // NewTransform creates addFieldsTransform
 func (c *Config) NewTransform(schema base.LogSchema, _ logger.Logger, _ base.LogCustomCounterRegistry) base.LogTransform {
+	// apply the fields in the order of their names: map iteration order is random, and the order is
+	// visible when a template reads a field that is set by the same transform
+	dstKeys := make([]string, 0, len(c.Fields))
+	for dstKey := range c.Fields {
+		dstKeys = append(dstKeys, dstKey)
+	}
+	sort.Strings(dstKeys)
 	pairList := make([]addFieldPair, 0, len(c.Fields))
-	for dstKey, valExpr := range c.Fields {
+	for _, dstKey := range dstKeys {
+		valExpr := c.Fields[dstKey]
 		dstSel := schema.MustCreateFieldLocator(dstKey)
 		srcTpl, err := stringtemplate.NewExpander(valExpr, schema.CreateTemplateVariableResolver)
 		if err != nil {
